@@ -114,8 +114,8 @@ def run_start_end(c, res):
     res.sample({'gate': 'start_end', 'N': '0..%d' % c.get('maxn', 0), 'num_start/num_end': '-2..N+1'})
 
 
-TH = (None, 0, 1, 1.5, 2, 3, float('inf'))
-TH_JSON = (None, 0, 1, 1.5, 2, 3, 'inf')
+TH = (None, 0, 1, 1.5, 2, 3, float('inf'), -1, 300)          # -1 and 300 lie outside the 8-bit type of the integer sample
+TH_JSON = (None, 0, 1, 1.5, 2, 3, 'inf', -1, 300)
 
 
 def hl_forms(D, named):
